@@ -6,13 +6,14 @@ is renamed consistently within its file (behaviour-preserving); macro parameters
 
 usage: alpha_rename_j2.py <dest-root> [--keep-tree]     (creates / updates <dest-root>/src/nunavut)
 """
+import os
 import pathlib
 import shutil
 import sys
 
 VERIF = pathlib.Path(__file__).resolve().parent.parent
 sys.path.insert(0, str(VERIF))
-REPO = pathlib.Path("/repo")
+REPO = pathlib.Path(os.environ.get("NVSA_SRC_ROOT", "/repo"))
 
 
 def rename_template(env, N, source: str, name: str, other_templates_text: str = ""):
